@@ -40,7 +40,10 @@ FORMS_RAW = {  # formula -> referenced columns (those whose nulls matter)
     "x | S": ["x", "S"], "x:y:p": ["x", "y", "p"], "center(q) + x": ["q", "x"], "{np.stack([x, y], axis=1)}": ["x", "y"],
     "{{'u': x, 'v': p}}": ["x", "p"], "n + x": ["n", "x"], "b:x": ["b", "x"], "C(n) + y": ["n", "y"], "0 + x | 0": ["x"], "y ~ 0": ["y"],
     "scale(q):A + n": ["q", "A", "n"], "cr(p, df=3) + b": ["p", "b"], "T + x": ["T", "x"],
+    # factors whose values come from the evaluation context (plain list / numpy array / pandas Series), rows dropped because of x
+    "zl + x": ["x"], "za:x + A": ["x", "A"], "zs + x + y": ["x", "y"], "y ~ zl + x": ["y", "x"],
 }
+CTX_FORMS = {"zl + x": "zl", "za:x + A": "za", "zs + x + y": "zs", "y ~ zl + x": "zl"}
 FORMS = FORMS_RAW
 NEEDS_DISTINCT = {"poly(y, 2)": "y", "bs(p, df=3)": "p", "cr(p, df=3) + b": "p"}
 
@@ -92,6 +95,14 @@ def gen_case(rng: random.Random, tier: str) -> dict:
                 "entry": entry, "mat": mat, "ixk": ixk}
 
 
+def make_ctx(case):
+    import pandas as pd
+
+    n = nrows(case["frame"])
+    z = [100.0 + i for i in range(n)]
+    return {"zl": list(z), "za": np.array(z), "zs": pd.Series(z)}
+
+
 def run(case, df, s):
     from formulaic import Formula, ModelSpec, model_matrix
     from formulaic.materializers import PandasMaterializer
@@ -100,7 +111,7 @@ def run(case, df, s):
     kw = {"na_action": case["na"], "output": case["output"]}
     if case["mat"] == "narwhals":
         kw["materializer"] = "narwhals"
-    ctx = {}
+    ctx = make_ctx(case)
     if entry == "mm":
         return model_matrix(f, df, drop_rows=s, context=ctx, **kw)
     if entry == "formula":
@@ -169,6 +180,21 @@ def judge(case) -> Outcome:
         if got != dropped:
             out.fail("c06.drop_set", f"{tag}: caller's drop set afterwards {sorted(got)} != positions removed {sorted(dropped)}")
             return out
+    if f in CTX_FORMS:  # the context-valued factor must hold exactly the kept positions' values
+        nm = CTX_FORMS[f]
+        p = parts[-1]
+        names = colnames(p)
+        j = next((k for k, c in enumerate(names) if c == nm or c.startswith(nm + ":")), None)
+        if j is None:
+            out.fail("c06.context_column_missing", f"{tag}: no column for {nm}: {names}")
+        else:
+            exp = np.array([100.0 + i for i in kept])
+            if names[j] != nm:
+                exp = exp * np.array([col_values(frame, "x")[i] if col_values(frame, "x")[i] is not None else np.nan for i in kept])
+            if not same(dense(p)[:, j], exp):
+                out.fail("c06.context_values_misaligned", f"{tag}: column {names[j]!r} = {dense(p)[:, j].tolist()} expected {exp.tolist()} (values of the kept positions {kept})")
+        out.see("context_factor_checks")
+        return out
     # values: the same specs on the pre-filtered data give the same matrices
     if kept and na == "drop":
         try:
